@@ -56,7 +56,7 @@ def model_replay(prop, tier, ev, rep, module, cfg, *, mode="fraction", label=Non
         rep.violation(keyfn(t, fails), {"transition": t, "failures": fails, "mode": mode,
                                         "model": module, "cfg": cfg})
 
-    n = replay_all(recs, r, on_fail, sample=lambda t: ev.sample(short(t)))
+    n = replay_all(recs, r, on_fail, sample=lambda t: ev.sample(short(t)), path_records=res.records)
     ev.validated += n
     if getattr(r, "unknown", 0):
         ev.extra["transitions_skipped_model_overflow"] = ev.extra.get("transitions_skipped_model_overflow", 0) + r.unknown
@@ -166,6 +166,61 @@ def suite_trace(prop, tier, ev, rep, kinds, files):
             rep.violation(f"suite:{e['kind']}.{e['name']}:{'+'.join(sorted(fails))}", {"event": e, "clauses": fails})
 
 
+def driver_kv(prop, tier, ev, rep, histories, steps):
+    """seeded random KnotVector histories beyond the exhaustive universe, recorded from outside, judged by TraceSuite"""
+    import subprocess
+    import tempfile
+    from .trace import Validator
+    fd, out = tempfile.mkstemp(prefix="verif_drv_", suffix=".ndjson")
+    os.close(fd)
+    env = dict(os.environ)
+    env["PYTHONPATH"] = os.path.join(core.REPO, "src") + os.pathsep + core.VERIF
+    env["VERIF_REPO"] = core.REPO
+    try:
+        proc = subprocess.run([sys.executable, "-m", "harness.drivers", "kv", str(core.seed()), str(histories), str(steps), out],
+                              cwd=core.VERIF, env=env, stdout=subprocess.PIPE, stderr=subprocess.STDOUT, text=True, timeout=1800)
+        if proc.returncode != 0:
+            raise core.MachineryError("KnotVector driver failed:\n" + proc.stdout[-2000:])
+        val = Validator("TraceSuite.tla", "TraceSuite.cfg")
+        with open(out) as f:
+            for line in f:
+                e = json.loads(line)
+                if e.get("kind") == "recorder_error":
+                    raise core.MachineryError(f"recorder failed: {e}")
+                e.pop("id", None)
+                val.add_raw(e)
+    finally:
+        if os.path.exists(out):
+            os.unlink(out)
+    verdicts, unknown, stats = val.run()
+    b = ev.extra.setdefault("random_histories", {"histories": 0, "calls_judged_by_TLC": 0, "failing": 0})
+    b["histories"] += histories
+    b["calls_judged_by_TLC"] += len(verdicts)
+    ev.states += stats["states"]
+    ev.transitions += stats["generated"]
+    ev.validated += len(verdicts)
+    for e, _ in val.events:
+        fails = [f for f in (verdicts.get(e["id"]) or []) if not f.startswith("?")]
+        if fails:
+            b["failing"] += 1
+            rep.violation(f"driver:{e['kind']}.{e['name']}:{'+'.join(sorted(fails))}", {"event": e, "clauses": fails})
+
+
+def driver_curves(prop, tier, ev, rep, histories, steps):
+    """seeded random function-preserving Curve histories (insert / elevate / exact remove / clean / split+join)
+    on larger inputs; every step is a SameFunction event judged by Trace.tla on observed values"""
+    import random
+    from . import drivers
+    from .trace import Validator
+    lib = core.import_lib()
+    val = Validator()
+    for h in range(histories):
+        rng = random.Random(core.seed() * 7919 + h)
+        drivers.curve_history(lib, rng, steps, val, rational=(h % 3 == 2))
+    judge_events(ev, rep, val)
+    ev.extra["random_curve_histories"] = ev.extra.get("random_curve_histories", 0) + histories
+
+
 def finish(ev, rep):
     code = rep.finish()
     ev.write()
@@ -179,6 +234,7 @@ def c03(tier):
     cfg = "MC_KnotVector_quick.cfg" if tier == "quick" else "MC_KnotVector_thorough.cfg"
     model_replay("C03", tier, ev, rep, "MC_KnotVector.tla", cfg)
     suite_trace("C03", tier, ev, rep, {"kv"}, ["tests/test_knotspace.py", "tests/test_splinecurve.py"] if tier == "quick" else [])
+    driver_kv("C03", tier, ev, rep, 30 if tier == "quick" else 600, 25 if tier == "quick" else 40)
     ev.assumptions += ["knot values are exact rationals in this run (float behaviour: C16/C18)",
                        "bounded universe: see spec/MC_KnotVector*.cfg"]
     return finish(ev, rep)
@@ -206,7 +262,12 @@ c06 = simple("C06", [("MC_Curve.tla", "MC_Curve_elevate_TIER.cfg"), ("MC_Curve.t
 c07 = simple("C07", [("MC_Curve.tla", "MC_Curve_split_TIER.cfg"), ("MC_Curve.tla", "MC_Curve_join_TIER.cfg")])
 c08 = simple("C08", [("MC_Curve.tla", "MC_Curve_arith_TIER.cfg")])
 c13 = simple("C13", [("MC_Curve.tla", "MC_Curve_eq_TIER.cfg")])
-c14 = simple("C14", [("MC_Curve.tla", "MC_Curve_clean_TIER.cfg")])
+def c14(tier):
+    ev = Evidence("C14", tier, core.seed())
+    rep = Reporter("C14", ev)
+    model_replay("C14", tier, ev, rep, "MC_Curve.tla", f"MC_Curve_clean_{tier}.cfg")
+    driver_curves("C14", tier, ev, rep, 12 if tier == "quick" else 300, 8 if tier == "quick" else 14)
+    return finish(ev, rep)
 c09 = simple("C09", [("MC_Curve.tla", "MC_Curve_deriv_TIER.cfg")])
 c11 = simple("C11", [("MC_Curve.tla", "MC_Curve_fitcurve_TIER.cfg")])
 c12 = simple("C12", [("MC_Curve.tla", "MC_Curve_fitpoints_TIER.cfg")])
@@ -472,7 +533,7 @@ def model_replay_cached(prop, tier, ev, rep, module, cfg, mode, cache):
         rep.violation(f"{mode}:" + fail_key(t, fails), {"transition": t, "failures": fails, "mode": mode,
                                                          "model": module, "cfg": cfg})
     recs = [t for t in res.records if t["ret"].get("rel") != "sem"]
-    n = replay_all(recs, r, on_fail, sample=lambda t: ev.sample({"mode": mode, **short(t)}))
+    n = replay_all(recs, r, on_fail, sample=lambda t: ev.sample({"mode": mode, **short(t)}), path_records=res.records)
     ev.validated += n
     per = ev.extra.setdefault("replayed_by_mode", {})
     per[mode] = per.get(mode, 0) + n
